@@ -20,8 +20,9 @@ outcome `recovered` (the panic is caught by `SafeCall`); the one reflect call
 Modelled, not verified: the serializer is an abstract function
 `Decoder : type id → payload → Option value`; Go's method-set rule (a value
 entry exposes only value-receiver methods, `reflect` lists only exported
-methods, sorted by name) is built into `methodSet`; two types are assignable
-iff identical (true for the pointer types that pass the shape predicate).
+methods, sorted by name) is built into `methodSet`; assignability of a caller-supplied
+context / message value to the declared parameter type is `assignableTo`: identity, `*E` to a
+named pointer type `type P *E`, else the relation `reflect` reports (dumped by the harness).
 -/
 namespace Cell2v.ApiMap
 
@@ -30,15 +31,32 @@ abbrev Bytes := List Nat
 inductive Kind | ptr | struct | func | iface | slice | map | chan | array | other
   deriving DecidableEq, Repr
 
+/-- `reflect.Type.Elem()` is defined (Array, Chan, Map, Pointer, Slice) — it panics for every other kind -/
+def Kind.hasElem : Kind → Bool
+  | .ptr | .slice | .map | .chan | .array => true
+  | _ => false
+
 /-- what `reflect` says about one parameter type -/
 structure TyDesc where
   kind : Kind
   implCtx : Bool        -- t.Implements(api.TypeOfContext)
   cbAssignable : Bool   -- a value of type HandlerCBFunc is assignable to t
   id : Bytes            -- t.String()
+  asgFrom : List Bytes := []    -- t'.String() of the OTHER types t' (of the harness's value pool) with t'.AssignableTo(t)
+  newId : Option Bytes := none  -- reflect.PtrTo(t.Elem()).String() where that is another type than t (t a NAMED pointer type)
+  zero : Option Bytes := none   -- the harness's digest of the zero value of t where that is not a nil pointer (observations only)
   deriving DecidableEq, Repr
 
-def TyDesc.none : TyDesc := ⟨.other, false, false, []⟩
+def TyDesc.none : TyDesc := ⟨.other, false, false, [], [], Option.none, Option.none⟩
+
+/-- the type of `reflect.New(t.Elem())`, the value `CallWithSerialize` decodes into: `t` itself
+for an ordinary pointer type `*E`, the unnamed `*E` for a named pointer type `type P *E` -/
+def TyDesc.builtId (t : TyDesc) : Bytes := t.newId.getD t.id
+
+/-- `reflect.Value.Call`'s test `dynamic type AssignableTo(parameter type)`: identity, the Go rule
+"`*E` is assignable to `type P *E`" (identical underlying types, one side unnamed), else the dumped relation -/
+def assignableTo (dyn : Bytes) (t : TyDesc) : Bool :=
+  dyn == t.id || (t.kind == .ptr && dyn == t.builtId) || t.asgFrom.contains dyn
 
 /-- what `reflect` says about one method (`ins[0]` is the receiver) -/
 structure Method where
@@ -118,6 +136,7 @@ structure Entry where
   methods : List Method               -- every declared method, in reflect order (sorted by name)
   group : Bytes                       -- options.groupName ("" = not set)
   nameFunc : Option (Bytes → Bytes)   -- options.nameFunc
+  isNil : Bool := false               -- a nil interface / typed nil pointer was registered
 
 def applyNF (nf : Option (Bytes → Bytes)) (s : Bytes) : Bytes :=
   match nf with
@@ -149,6 +168,7 @@ def suitable (fmtOK : Bool) (nf : Option (Bytes → Bytes)) (eid : Nat) (ms : Li
 structure Container where
   name : Bytes
   handlers : List (Bytes × Handler)
+  deriving DecidableEq
 
 /-- `NewContainer`: group name from the option, else the (renamed) type name -/
 def containerName (e : Entry) : Bytes :=
@@ -182,6 +202,73 @@ def newService (fmtOK : Bool) (col : Collection) (e : Entry) : Collection :=
 
 /-- `APICollection.Build` -/
 def build (fmtOK : Bool) (es : List Entry) : Collection := es.foldl (newService fmtOK) []
+
+/-! ## `Build` as it can also go: any formater, nil entries (registration-time panics)
+
+`SetFormater` takes any `IAPIFormatter`; `Register` takes any `IAPIEntry`, nil included.  `buildX` is `Build`
+with the reflect calls that can panic there: `mt.In(1)`/`mt.In(2)` in `suitableHandlerMethods` on a method with
+fewer than three parameters that the formater accepted, and `reflect.Indirect(receiver).Type()` on a nil entry
+(in `NewContainer` when no group name is configured, else in `ExtractHandler` — unless the group is already
+defined, which returns first).  `Lemmas.buildX_default`: with the default (or no) formater and no nil entry it
+is `build` and does not panic. -/
+
+abbrev Formater := Option (Method → Bool)
+
+/-- the default formater, or nil -/
+def Formater.ofBool (fmtOK : Bool) : Formater := if fmtOK then some isValidMethod else none
+
+def Formater.accepts (f : Formater) (m : Method) : Bool :=
+  match f with
+  | none => false
+  | some p => p m
+
+/-- `suitableHandlerMethods`; `none` = it panics -/
+def suitableAuxX (fmt : Formater) (nf : Option (Bytes → Bytes)) (eid : Nat) :
+    List (Bytes × Handler) → List Method → Option (List (Bytes × Handler))
+  | acc, [] => some acc
+  | acc, m :: ms =>
+    if fmt.accepts m then
+      if m.ins.length < 3 then none                      -- mt.In(1) / mt.In(2)
+      else suitableAuxX fmt nf eid ((applyNF nf m.name, mkHandler eid m) :: acc) ms
+    else suitableAuxX fmt nf eid acc ms
+
+/-- what `reflect.PtrTo(c.Type)` enumerates (the "hint: pass a pointer" pass of `ExtractHandler`) -/
+def ptrMethodSet (e : Entry) : List Method := if e.isPtr then [] else e.methods.filter (·.exported)
+
+/-- `ExtractHandler`: outer `none` = panic, inner `none` = an error is returned and the entry is dropped -/
+def extractHandlerX (fmt : Formater) (e : Entry) : Option (Option Container) :=
+  if e.isNil then none                                   -- reflect.Indirect(c.Receiver).Type()
+  else if e.typeName = [] then some none
+  else if !isExportedName e.typeName then some none
+  else
+    match suitableAuxX fmt e.nameFunc e.eid [] (methodSet e) with
+    | none => none
+    | some hs =>
+      if hs.isEmpty then
+        match suitableAuxX fmt e.nameFunc e.eid [] (ptrMethodSet e) with
+        | none => none
+        | some _ => some none
+      else some (some ⟨containerName e, hs⟩)
+
+/-- `newService` (with `NewContainer`); `none` = panic -/
+def newServiceX (fmt : Formater) (col : Collection) (e : Entry) : Option Collection :=
+  if e.isNil && e.group = [] then none                   -- NewContainer: reflect.Indirect(s.Receiver).Type().Name()
+  else
+    match findC col (containerName e) with
+    | some _ => some col
+    | none =>
+      match extractHandlerX fmt e with
+      | none => none
+      | some none => some col
+      | some (some c) => some (col ++ [c])
+
+/-- `APICollection.Build`: (the table as far as it got, it panicked) -/
+def buildX (fmt : Formater) : List Entry → Collection → Collection × Bool
+  | [], col => (col, false)
+  | e :: r, col =>
+    match newServiceX fmt col e with
+    | none => (col, true)
+    | some col' => buildX fmt r col'
 
 /-! ## routes -/
 
@@ -233,8 +320,8 @@ inductive Outcome
 /-- `reflect.Value.Call` accepts the argument list built by `CallMethod` -/
 def typesOK (h : Handler) (ctx : CtxArg) (arg : ArgV) (withCb : Bool) : Bool :=
   (h.meth.ins.length == (if withCb then 4 else 3)) &&
-  (match ctx with | .nil => true | .ty id => id == h.ctxT.id) &&
-  (match arg with | .nil => true | .val t _ => t == h.argT.id) &&
+  (match ctx with | .nil => true | .ty id => assignableTo id h.ctxT) &&
+  (match arg with | .nil => true | .val t _ => assignableTo t h.argT) &&
   (!withCb || ((h.meth.ins[3]?).map (·.cbAssignable)).getD false)
 
 /-- `SafeCall` -/
@@ -271,10 +358,10 @@ def callWithSerialize (col : Collection) (ser : Option Decoder) (route : Bytes) 
     match getArgType col route with
     | none => .fwErr
     | some t =>
-      if t.kind != .ptr then .escaped                  -- argType.Elem() outside SafeCall
+      if !t.kind.hasElem then .escaped                 -- argType.Elem() outside SafeCall
       else match dec t.id data with
         | none => .fwErr
-        | some v => call col route ctx (.val t.id v) hasCb
+        | some v => call col route ctx (.val t.builtId v) hasCb   -- reflect.New(argType.Elem())
 
 /-! ## handler behaviour and completions -/
 
@@ -335,6 +422,169 @@ def responses (r : Bool × Option Outcome) (isNotify : Bool) (b : Beh) : List Co
   match r.2 with
   | none => if isNotify then [] else [.f]            -- "no method" through Response (dropped for a notify)
   | some o => completionsG b.bad o (!isNotify) b
+
+/-! ## execution semantics: the same code as a program that EMITS EVENTS
+
+The functions above return a summary (`Outcome`) and `completionsG` reads the
+completions off it.  Here every function is written statement by statement as a
+program in a tiny language with two effects — emitting an event and panicking
+(`defer/recover` = `recoverWith`) — so that "the completion function is invoked
+exactly once", "the handler runs at most once", "a framework completion carries
+an error" are statements about the event list of an execution, and the summary
+model is PROVED to agree with it (`Lemmas.callWithSerializeX_refines`).  The
+driver prints observations from these executions. -/
+
+/-- a completion function as the code sees it: `none` = nil; `some picky` = a function, `picky` = it panics
+(before delivering anything) on a value it cannot take — the service dispatcher's closure does, in `Response` -/
+abbrev Cb := Option Bool
+
+inductive Ev
+  | cb (byHandler : Bool) (isErr : Bool)              -- the completion function was invoked (by whom, with an error?)
+  | run (h : Handler) (ctxSet : Bool) (arg : ArgV)    -- a handler body was entered
+  deriving DecidableEq, Repr
+
+/-- an execution: the events emitted, and whether it ended returning or panicking -/
+structure Exec where
+  evs : List Ev := []
+  panicking : Bool := false
+  deriving DecidableEq, Repr
+
+def Exec.ret : Exec := {}
+def Exec.panic : Exec := ⟨[], true⟩
+def Exec.emit (e : Ev) : Exec := ⟨[e], false⟩
+
+/-- `a; b` -/
+def Exec.andThen (a b : Exec) : Exec := if a.panicking then a else ⟨a.evs ++ b.evs, b.panicking⟩
+
+/-- `defer func() { if recover() != nil { handler } }(); body` -/
+def Exec.recoverWith (body handler : Exec) : Exec :=
+  if body.panicking then ⟨body.evs ++ handler.evs, handler.panicking⟩ else body
+
+/-- the completion function `f` is called with (error | value); `bad` = the value is one a picky function chokes on -/
+def invokeCb (picky byHandler isErr bad : Bool) : Exec :=
+  if picky && !isErr && bad then .panic else .emit (.cb byHandler isErr)
+
+/-- `CheckInvokeCBFunc(cbFunc, errors.New(…), nil)`: nil-check, then the call, always with an error -/
+def checkInvokeCB (cb : Cb) : Exec :=
+  match cb with
+  | none => .ret
+  | some picky => invokeCb picky false true false
+
+/-- the completions a handler body makes, in order (user code, scripted by `Beh.comps`) -/
+def playBody (cb : Cb) (bad : Bool) : List Bool → Exec
+  | [] => .ret
+  | c :: r => (match cb with | none => Exec.ret | some picky => invokeCb picky true (!c) bad).andThen (playBody cb bad r)
+
+/-- a handler body: entered, completes per script, then possibly panics -/
+def handlerBody (h : Handler) (ctxSet : Bool) (arg : ArgV) (cb : Cb) (b : Beh) : Exec :=
+  (Exec.emit (.run h ctxSet arg)).andThen ((playBody cb b.bad b.comps).andThen (if b.panics then .panic else .ret))
+
+/-- `handler.Method.Func.Call(args)`: reflect panics on an argument list it rejects, else the body runs -/
+def reflectCall (h : Handler) (ctx : CtxArg) (arg : ArgV) (withCb : Bool) (cb : Cb) (b : Beh) : Exec :=
+  if typesOK h ctx arg withCb then handlerBody h (ctx != .nil) arg (if withCb then cb else none) b else .panic
+
+/-- `SafeCall` -/
+def safeCallX (h : Handler) (ctx : CtxArg) (arg : ArgV) (withCb : Bool) (cb : Cb) (b : Beh) : Exec :=
+  (reflectCall h ctx arg withCb cb b).recoverWith (checkInvokeCB cb)
+
+/-- `APIContainer.CallMethod` -/
+def callMethodX (c : Container) (method : Bytes) (ctx : CtxArg) (arg : ArgV) (cb : Cb) (b : Beh) : Exec :=
+  match lookup c.handlers method with
+  | none => checkInvokeCB cb
+  | some h =>
+    if h.isRequest then safeCallX h ctx arg true cb b
+    else if cb.isSome then .ret                          -- D11
+    else safeCallX h ctx arg false cb b
+
+/-- `APICollection.Call` -/
+def callX (col : Collection) (route : Bytes) (ctx : CtxArg) (arg : ArgV) (cb : Cb) (b : Beh) : Exec :=
+  match splitRoute route with
+  | none => checkInvokeCB cb
+  | some (g, m) =>
+    match findC col g with
+    | none => checkInvokeCB cb
+    | some c => callMethodX c m ctx arg cb b
+
+/-- what `serializer.Unmarshal(data, arg)` does: stores a value, returns an error, or PANICS
+(`Serializer` is an interface, and `encoding/json` runs the message type's own `UnmarshalJSON`) -/
+inductive DecRes | val (v : Bytes) | err | panics
+  deriving DecidableEq, Repr
+
+abbrev DecoderX := Bytes → Bytes → DecRes
+
+/-- a serializer that never panics -/
+def Decoder.lift (d : Decoder) : DecoderX := fun t p => match d t p with | some v => .val v | none => .err
+
+/-- `CallWithSerialize` -/
+def callWithSerializeX (col : Collection) (ser : Option DecoderX) (route : Bytes) (ctx : CtxArg) (data : Bytes)
+    (cb : Cb) (b : Beh) : Exec :=
+  match ser with
+  | none => checkInvokeCB cb
+  | some dec =>
+    match getArgType col route with
+    | none => checkInvokeCB cb
+    | some t =>
+      if !t.kind.hasElem then .panic                     -- argType.Elem() outside SafeCall
+      else match dec t.id data with
+        | .panics => .panic                              -- Unmarshal is outside SafeCall too
+        | .err => checkInvokeCB cb
+        | .val v => callX col route ctx (.val t.builtId v) cb b
+
+/-- the events that are not completions (what is left of an execution whose answers are never sent) -/
+def Exec.unsent (x : Exec) : Exec := { x with evs := x.evs.filter fun e => match e with | .run _ _ _ => true | .cb _ _ => false }
+
+/-- `APIDispatcher.Dispatch` with `tryCall`/`tryCallCol`: the completion function of a request is the closure
+that answers through `Service.Response`; "no method" is answered through `Response` directly.  `ResponseEx`
+returns early for a notify and for a request WITHOUT SENDER (before serialising: so the closure is picky —
+panics on an unserialisable value — only when there is a sender), so the `.cb` events of a dispatcher
+execution are the `ServiceResponse`s actually sent -/
+def dispatchX (cols : List Collection) (dec : DecoderX) (rc : Bytes) (route data : Bytes) (isNotify hasSender : Bool)
+    (b : Beh) : Bool × Exec :=
+  match dispatchTarget cols route with
+  | none => (false, if isNotify || !hasSender then .ret else .emit (.cb false true))
+  | some c =>
+    let x := callWithSerializeX c (some dec) route (.ty rc) data (if isNotify then none else some hasSender) b
+    (true, if hasSender then x else x.unsent)
+
+/-- what `reqReceiver.ReceiveRequest` — the user code a request falls through to — does: there is none,
+it ignores the request (the default `Service.ReceiveRequest`), or it answers every request -/
+inductive Legacy | absent | silent | answers
+  deriving DecidableEq, Repr
+
+/-- the fall-through of `Service.handleRequest` (the body deserialises — a failing `remote.Deserialize` is C07's):
+(execution, the legacy receiver was handed the request) -/
+def legacyX (legacy : Legacy) (isNotify hasSender : Bool) : Exec × Bool :=
+  match legacy with
+  | .absent => (.ret, false)
+  | .silent => (.ret, true)
+  | .answers => (if isNotify || !hasSender then .ret else .emit (.cb true false), true)
+
+/-- `Service.handleRequest`: a routed request goes to the API dispatcher first; if there is no dispatcher, no
+route, or `Dispatch` returns false (which it does AFTER answering "no method") it falls through to the legacy receiver -/
+def handleRequestX (disp : Option (List Collection)) (dec : DecoderX) (rc : Bytes) (route data : Bytes)
+    (isNotify hasSender : Bool) (legacy : Legacy) (b : Beh) : Exec × Bool :=
+  match (if route ≠ [] then disp.map (fun cols => dispatchX cols dec rc route data isNotify hasSender b) else none) with
+  | some (true, x) => (x, false)
+  | some (false, x) =>
+    if x.panicking then (x, false)
+    else let l := legacyX legacy isNotify hasSender; (x.andThen l.1, l.2)
+  | none => legacyX legacy isNotify hasSender
+
+/-! ### reading an execution -/
+
+def compOfEv : Ev → Option Comp
+  | .cb true e => some (.h (!e))
+  | .cb false _ => some .f
+  | .run _ _ _ => none
+
+def runOfEv : Ev → Option (Handler × Bool × ArgV)
+  | .run h c a => some (h, c, a)
+  | .cb _ _ => none
+
+/-- the completions of an execution, in order -/
+def Exec.comps (x : Exec) : List Comp := x.evs.filterMap compOfEv
+/-- the handler invocations of an execution, in order -/
+def Exec.runs (x : Exec) : List (Handler × Bool × ArgV) := x.evs.filterMap runOfEv
 
 /-! ## registry (apimapper/registry/api_registry.go) under concurrency
 
